@@ -211,7 +211,12 @@ class C10(Check):
             for k, there in present:
                 if there:
                     d, img = ncchs[k]
-                    raw = rd.open_raw_section(records[k][1]).read()
+                    try:
+                        raw = rd.open_raw_section(records[k][1]).read()
+                    except Exception as ex:  # noqa
+                        mon.append(f'content {records[k][1]} is present but could not be opened: {exc_name(ex)}')
+                        key = 'cdn.selection'
+                        continue
                     if raw != img:
                         mon.append(f'content {records[k][1]}: decrypted bytes differ from the packed NCCH')
                         key = 'cdn.raw'
